@@ -278,6 +278,18 @@ type MyInt int
 
 var pickSink int
 
+// Width is a generic function whose type parameter does not occur in its signature: all instantiations have one Go type
+//
+//go:noinline
+func Width[T any](n int) int {
+	var z [3]T
+	if n < -10000 {
+		pickSink += n
+		fmt.Println("never", n)
+	}
+	return n + len(z) + int(unsafe.Sizeof(z))*100
+}
+
 // Pick is a generic function (not a method): its instantiations are mocked through Builder.Func
 //
 //go:noinline
@@ -525,6 +537,54 @@ func TestC06Generics(t *testing.T) {
 			for _, p := range pks {
 				if got := p.call(); got != 46 {
 					rep.Violate("C06/not-restored", fmt.Sprintf("after Reset of a builder that stubbed four instantiations of Pick, %s gives %d, want the original 46", p.name, got), nil)
+				}
+			}
+		}
+	}
+	// the same for instantiations that all have the Go type func(int) int (and one printed name)
+	{
+		type wk struct {
+			name string
+			call func() int
+			fn   interface{}
+		}
+		wks := []wk{
+			{"Width[int32]", func() int { return Width[int32](1) }, Width[int32]},
+			{"Width[int64]", func() int { return Width[int64](1) }, Width[int64]},
+			{"Width[string]", func() int { return Width[string](1) }, Width[string]},
+			{"Width[[5]byte]", func() int { return Width[[5]byte](1) }, Width[[5]byte]},
+		}
+		origs := make([]int, len(wks))
+		for i, w := range wks {
+			origs[i] = w.call()
+		}
+		for round := 0; round < 3; round++ {
+			b := mocker.Create()
+			var perr interface{}
+			rep.Journal(map[string]interface{}{"part": "generics", "instantiation": "Width[T] x4", "crashkey": "C06/generic-mock-kills-the-process:generic-function-one-type"})
+			func() {
+				defer func() { perr = recover() }()
+				for i := range wks {
+					k := (i + round) % len(wks)
+					b.Func(wks[k].fn).Returns(8400+k, 8500+k)
+				}
+			}()
+			rep.Eval(int64(3 * len(wks)))
+			rep.Class("generic/function-instantiations-of-one-go-type-mocked-together")
+			if perr != nil {
+				rep.Violate("C06/generic-mock-rejected", fmt.Sprintf("mocking four instantiations of Width (all of type func(int) int) in one builder: %v", perr), nil)
+			} else {
+				for k, w := range wks {
+					if got := [3]int{w.call(), w.call(), w.call()}; got != [3]int{8400 + k, 8500 + k, 8500 + k} {
+						rep.Violate("C06/mocked-method-not-replaced", fmt.Sprintf("%s stubbed with Returns(%d, %d) (three other instantiations of the same Go type stubbed in the same builder): three calls give %v", w.name, 8400+k, 8500+k, got), nil)
+						break
+					}
+				}
+			}
+			func() { defer func() { recover() }(); b.Reset() }()
+			for i, w := range wks {
+				if got := w.call(); got != origs[i] {
+					rep.Violate("C06/not-restored", fmt.Sprintf("after Reset of a builder that stubbed four instantiations of Width, %s gives %d, want the original %d", w.name, got, origs[i]), nil)
 				}
 			}
 		}
